@@ -14,11 +14,17 @@ import (
 // C03 — binary heap + heapsort.  Wire format: see coq/theories/C03_Wire.v
 // (kept in step).
 //
-//	mode 0 (history): 0 ty c0 c1 ops...      h0 = NewHeap(c0), h1 = NewHeap(c1)
+//	mode 0 (history): 0 ty c0 c1 ops...      h0 = NewHeap(c0), h1 = NewHeap(c1), h2 = NewHeap(c1)
 //	   1 x Push      2 Pop       3 Peek      4 Clear     5 c Convert   6 x Delete
 //	   7 Size        8 IsEmpty   9 GetValues 10 c n xs.. FromSlice     11 Merge
-//	  12 Meld       13 Swap     14 n xs.. Push(xs...)
+//	  12 Meld       13 Swap     14 n xs.. Push(xs...)     15 Swap2
+//	Every operation acts on h0; Merge/Meld take h1 as argument, put the result in
+//	h0 and KEEP THE RECEIVER as h2, so that result, argument and receiver are all
+//	used and observed again afterwards (storage shared between them shows up as a
+//	wrong value in one of the three); Swap / Swap2 exchange h0 with h1 / h2.
 //	mode 1 (sort):    1 ty c n xs...
+//	modes 2 / 3: the same as 0 / 1 for LARGE inputs; the Coq side judges them against the
+//	specification only (the list model is too slow to be run on them), see C03_Wire.v.
 //
 // ty 0: Heap[int]; ty 1: Heap[c03KP] (struct{key, payload}); the integer e on
 // the wire stands for {key: e / 10, payload: e % 10}.
@@ -106,7 +112,8 @@ func c03History[T comparable](r *R, o *c03Obs, st *c03Stats, dec func(int64) T, 
 	c0, c1 := r.Int(), r.Int()
 	h0 := heap.NewHeap(cmpOf(c0))
 	h1 := heap.NewHeap(cmpOf(c1))
-	cur0, cur1 := cmpOf(c0), cmpOf(c1) // comparator currently installed (for statistics only)
+	h2 := heap.NewHeap(cmpOf(c1))
+	cur0, cur1, cur2 := cmpOf(c0), cmpOf(c1), cmpOf(c1) // comparator currently installed (for statistics only)
 	readVals := func() []T {
 		n := r.Int()
 		if n < 0 || n > len(r.w) {
@@ -201,10 +208,14 @@ func c03History[T comparable](r *R, o *c03Obs, st *c03Stats, dec func(int64) T, 
 				payload = append([]int64{int64(len(a))}, a...)
 				payload = append(payload, int64(len(b)))
 				payload = append(payload, b...)
-				h0 = t
+				h2, cur2 = h0, cur0 // the receiver stays alive as h2
+				h0 = t              // the result carries the receiver's comparator
 			case 13:
 				h0, h1 = h1, h0
 				cur0, cur1 = cur1, cur0
+			case 15:
+				h0, h2 = h2, h0
+				cur0, cur2 = cur2, cur0
 			case 14:
 				h0.Push(readVals()...)
 			default:
@@ -232,7 +243,7 @@ func c03History[T comparable](r *R, o *c03Obs, st *c03Stats, dec func(int64) T, 
 		o.add(payload...)
 		o.add(int64(sz))
 	}
-	// end of case: drain both heaps by Pop
+	// end of case: drain the three heaps by Pop
 	drain := func(h *heap.Heap[T]) bool {
 		var popped []int64
 		var empty bool
@@ -253,11 +264,11 @@ func c03History[T comparable](r *R, o *c03Obs, st *c03Stats, dec func(int64) T, 
 		o.add(b2i(empty))
 		return true
 	}
-	if !drain(h0) || !drain(h1) {
+	if !drain(h0) || !drain(h1) || !drain(h2) {
 		return
 	}
 	if try(func() {
-		o.add(int64(h0.Size()), int64(h1.Size()), enc(h0.Pop()), enc(h0.Peek()))
+		o.add(int64(h0.Size()), int64(h1.Size()), int64(h2.Size()), enc(h0.Pop()), enc(h0.Peek()))
 	}) {
 		st.panicked = true
 		o.add(2)
@@ -300,6 +311,9 @@ func c03Run(in []int64) ([]int64, *c03Stats) {
 			o.add(-999999)
 			return
 		}
+		if mode == 2 || mode == 3 {
+			mode -= 2 // spec-only modes: executed exactly like 0 / 1
+		}
 		idI := func(x int64) int { return int(x) }
 		encI := func(x int) int64 { return int64(x) }
 		switch {
@@ -320,7 +334,7 @@ func c03Run(in []int64) ([]int64, *c03Stats) {
 			o.mu.Unlock()
 		}
 	}()
-	t := time.NewTimer(c03Timeout)
+	t := time.NewTimer(c03Timeout + time.Duration(len(in)/500)*time.Second)
 	defer t.Stop()
 	select {
 	case <-done:
@@ -338,7 +352,7 @@ func execC03(in []int64) []int64 {
 }
 
 var c03OpNames = map[int]string{1: "Push", 2: "Pop", 3: "Peek", 4: "Clear", 5: "Convert", 6: "Delete", 7: "Size",
-	8: "IsEmpty", 9: "GetValues", 10: "FromSlice", 11: "Merge", 12: "Meld", 13: "Swap", 14: "PushN"}
+	8: "IsEmpty", 9: "GetValues", 10: "FromSlice", 11: "Merge", 12: "Meld", 13: "Swap", 14: "PushN", 15: "Swap2"}
 var c03CmpNames = map[int]string{0: "<", 1: ">", 2: "key<", 3: "key>"}
 
 func c03CmpName(c int) string {
@@ -351,19 +365,35 @@ func c03CmpName(c int) string {
 func describeC03(in []int64) string {
 	r := &R{w: in}
 	mode, ty := r.Int(), r.Int()
+	specOnly := ""
+	if mode == 2 || mode == 3 {
+		mode -= 2
+		specOnly = "[judged by the specification only] "
+	}
 	tn := "int"
 	if ty == 1 {
 		tn = "struct{key,payload} coded key*10+payload"
 	}
 	var sb strings.Builder
+	sb.WriteString(specOnly)
 	if mode == 1 {
 		c := r.Int()
-		fmt.Fprintf(&sb, "Sort[%s](%v, %s)", tn, r.Ints(), c03CmpName(c))
+		xs := r.Ints()
+		if len(xs) > 24 {
+			fmt.Fprintf(&sb, "Sort[%s](%v... %d values, %s)", tn, xs[:24], len(xs), c03CmpName(c))
+		} else {
+			fmt.Fprintf(&sb, "Sort[%s](%v, %s)", tn, xs, c03CmpName(c))
+		}
 		return sb.String()
 	}
 	c0, c1 := r.Int(), r.Int()
 	fmt.Fprintf(&sb, "Heap[%s] h0=NewHeap(%s) h1=NewHeap(%s):", tn, c03CmpName(c0), c03CmpName(c1))
+	nops := 0
 	for len(r.w) > 0 && !r.bad {
+		if nops++; nops > 80 {
+			fmt.Fprintf(&sb, " ... (%d more words)", len(r.w))
+			break
+		}
 		code := r.Int()
 		switch code {
 		case 1, 6:
@@ -372,15 +402,27 @@ func describeC03(in []int64) string {
 			fmt.Fprintf(&sb, " Convert(%s)", c03CmpName(r.Int()))
 		case 10:
 			c := r.Int()
-			fmt.Fprintf(&sb, " h0=FromSlice(%v,%s)", r.Ints(), c03CmpName(c))
+			xs := r.Ints()
+			if len(xs) > 12 {
+				fmt.Fprintf(&sb, " h0=FromSlice(%v... %d values,%s)", xs[:12], len(xs), c03CmpName(c))
+			} else {
+				fmt.Fprintf(&sb, " h0=FromSlice(%v,%s)", xs, c03CmpName(c))
+			}
 		case 14:
-			fmt.Fprintf(&sb, " Push(%v...)", r.Ints())
+			xs := r.Ints()
+			if len(xs) > 12 {
+				fmt.Fprintf(&sb, " Push(%v... %d values)", xs[:12], len(xs))
+			} else {
+				fmt.Fprintf(&sb, " Push(%v...)", xs)
+			}
 		case 11:
-			sb.WriteString(" h0=h0.Merge(h1)")
+			sb.WriteString(" h2,h0=h0,h0.Merge(h1)")
 		case 12:
-			sb.WriteString(" h0=h0.Meld(h1)")
+			sb.WriteString(" h2,h0=h0,h0.Meld(h1)")
 		case 13:
 			sb.WriteString(" swap(h0,h1)")
+		case 15:
+			sb.WriteString(" swap(h0,h2)")
 		default:
 			if n, ok := c03OpNames[code]; ok {
 				sb.WriteString(" " + n)
@@ -389,7 +431,7 @@ func describeC03(in []int64) string {
 			}
 		}
 	}
-	sb.WriteString("; then drain h0, h1 by Pop")
+	sb.WriteString("; then drain h0, h1, h2 by Pop")
 	return sb.String()
 }
 
@@ -409,8 +451,12 @@ func c03Emit(g *Gen, stream string, in []int64) {
 		g.Count("maxsize=3-6")
 	case st.maxSize <= 14:
 		g.Count("maxsize=7-14")
+	case st.maxSize <= 99:
+		g.Count("maxsize=15-99")
+	case st.maxSize <= 999:
+		g.Count("maxsize=100-999")
 	default:
-		g.Count("maxsize>=15")
+		g.Count("maxsize>=1000")
 	}
 	add := func(k string, n int) {
 		for i := 0; i < n; i++ {
@@ -430,7 +476,10 @@ func c03Emit(g *Gen, stream string, in []int64) {
 	if st.hung {
 		g.Count("hang")
 	}
-	if in[0] == 1 {
+	if in[0] == 2 || in[0] == 3 {
+		g.Count("mode:spec-only(large)")
+	}
+	if in[0] == 1 || in[0] == 3 {
 		g.Count("op:Sort")
 	} else {
 		r := &R{w: in[4:]}
@@ -506,6 +555,8 @@ func genC03(g *Gen) {
 				a = append(a, c03Op{12})
 			case "swap":
 				a = append(a, c03Op{13})
+			case "swap2":
+				a = append(a, c03Op{15})
 			}
 		}
 		return a
@@ -522,9 +573,9 @@ func genC03(g *Gen) {
 		}
 	}
 	// 1. exhaustive op sequences from two empty heaps.
-	//    full alphabet (16 ops) up to length 3 (4); 10 ops up to 4 (5); 7 ops at 5 (6); 6 ops at - (7)
+	//    full alphabet (17 ops) up to length 3 (4); 10 ops up to 4 (5); 7 ops at 5 (6); 6 ops at - (7)
 	for _, s := range setups {
-		full := mkAlpha(s, "push", "pop", "peek", "clear", "convert", "delete", "values", "merge", "meld", "swap")
+		full := mkAlpha(s, "push", "pop", "peek", "clear", "convert", "delete", "values", "merge", "meld", "swap", "swap2")
 		mid := mkAlpha(s, "push", "pop", "convert", "delete2", "merge", "swap")
 		core := mkAlpha(s, "push", "pop", "convert", "delete1")
 		small := mkAlpha(s, "push", "pop", "delete1")
@@ -568,8 +619,79 @@ func genC03(g *Gen) {
 			}
 		}
 	})
-	// 4. Merge / Meld of every pair of small heaps (slices up to length 2 (3)), differing comparators
+	// 4. Merge / Meld where the RECEIVER has spare capacity (Go's append growth 1,2,4,8: three
+	//    pushes leave len 3 cap 4; Pop, Clear and Delete keep the array) or not, with every small
+	//    argument (slices up to length 2 (3), built by FromSlice = exact capacity, or by pushes),
+	//    followed by operations on the result, on the receiver (h2) and on the argument (h1);
+	//    the final drains observe all three.  Storage shared between any two of them cannot
+	//    survive this: the shortest such case is the replay.
+	pushes := func(vs ...int) []c03Op {
+		var o []c03Op
+		for _, v := range vs {
+			o = append(o, c03Op{1, v})
+		}
+		return o
+	}
+	cat := func(parts ...[]c03Op) []c03Op {
+		var o []c03Op
+		for _, p := range parts {
+			o = append(o, p...)
+		}
+		return o
+	}
 	mm := g.Pick(2, 3)
+	for _, s := range setups {
+		preps := [][]c03Op{
+			{},                                    // fresh: cap 0
+			pushes(10, 20, 21),                    // len 3 cap 4
+			pushes(21, 10, 0),                     // len 3 cap 4, sifted
+			cat(pushes(10, 20), []c03Op{{2}}),     // len 1 cap 2
+			pushes(0, 10, 20, 21, 10),             // len 5 cap 8
+			cat(pushes(10, 20, 21), []c03Op{{4}}), // cleared: len 0 cap 4
+			cat(pushes(21, 10, 20, 0), []c03Op{{2}, {2}}),                                  // len 2 cap 4
+			{c03FromSliceOp(s.c0, []int{10, 20, 21, 0}), {2}},                              // FromSlice then Pop: len 3 cap 4
+			{c03FromSliceOp(s.c0, []int{20, 10, 21})},                                      // exact capacity: nothing to share
+			cat(pushes(10, 20, 21, 0), []c03Op{{6, 20}}),                                   // Delete: len 3 cap 4
+			{{14, 3, 20, 21, 10}},                                                          // variadic push: len 3 cap 4
+			{c03FromSliceOp(s.c0, []int{0, 10, 20, 21, 10, 20, 0}), {5, s.conv}, {2}, {2}}, // converted, len 5 cap 7
+		}
+		// a receiver whose order was broken by the pinned Delete (defect #20: inner victim, the moved
+		// element does not fit): Merge/Meld must still hand out an ORDERED result (they re-push);
+		// the receiver kept by Merge stays as it is (its out-of-order Pops are the known finding)
+		asc := []int{10, 20, 30, 40, 50, 60, 70, 80}
+		if s.c0 == 1 {
+			asc = []int{80, 70, 60, 50, 40, 30, 20, 10}
+		}
+		preps = append(preps, []c03Op{c03FromSliceOp(s.c0, asc), {6, asc[1]}})
+		follows := [][]c03Op{
+			{},
+			{{1, 0}}, {{1, 21}}, {{2}}, // on the result
+			{{15}, {1, 0}}, {{15}, {1, 21}}, {{15}, {2}}, // on the receiver
+			{{13}, {1, 0}}, {{13}, {1, 21}}, {{13}, {2}}, // on the argument
+			{{1, 0}, {15}, {1, 21}, {15}, {2}},       // result, receiver, result
+			{{15}, {1, 0}, {13}, {1, 21}, {13}, {2}}, // receiver, argument, receiver
+			{{2}, {15}, {2}, {13}, {2}},              // a Pop on each
+		}
+		slicesOver(vals, mm, func(b []int) {
+			b = cloneInts(b)
+			args := [][]c03Op{{c03FromSliceOp(s.c1, b)}}
+			if len(b) > 0 {
+				args = append(args, pushes(b...))
+			}
+			for _, arg := range args {
+				for _, prep := range preps {
+					for _, code := range []int{11, 12} {
+						for _, f := range follows {
+							ops := cat([]c03Op{{13}}, arg, []c03Op{{13}}, prep, []c03Op{{code}}, f)
+							g.Count("alias-probe:merge/meld-with-all-three-heaps-reused")
+							c03Emit(g, "exhaustive", c03Hist(s.ty, s.c0, s.c1, ops))
+						}
+					}
+				}
+			}
+		})
+	}
+	// 4b. the former pair scope: Merge / Meld of every pair of small FromSlice heaps, differing comparators
 	slicesOver(vals, mm, func(a []int) {
 		a = cloneInts(a)
 		slicesOver(vals, mm, func(b []int) {
@@ -581,9 +703,53 @@ func genC03(g *Gen) {
 			}
 		})
 	})
+	// 5. Convert on a heap of 0 or 1 elements — fresh, popped empty, cleared, FromSlice of 0/1
+	//    elements, reduced by Delete, emptied by Meld (as receiver and as argument) — once or twice,
+	//    followed by every sequence of 2 and 3 pushes over the 4 values, then Peek / Merge / Meld:
+	//    the new comparator must govern the later pushes and be handed on to a merged heap.
+	for _, s := range setups {
+		small := [][]c03Op{
+			{},
+			cat(pushes(10), []c03Op{{2}}),
+			cat(pushes(10), []c03Op{{4}}),
+			{c03FromSliceOp(s.c0, nil)},
+			pushes(0), pushes(10), pushes(20), pushes(21),
+			{c03FromSliceOp(s.c0, []int{10})},
+			{c03FromSliceOp(s.c0, []int{21})},
+			cat(pushes(10, 20), []c03Op{{2}}),
+			cat(pushes(20, 10), []c03Op{{6, 20}}),
+			cat(pushes(10), []c03Op{{6, 10}}),
+			cat(pushes(10, 21), []c03Op{{12}, {15}}),                     // the emptied receiver of a Meld
+			cat([]c03Op{{13}}, pushes(10, 0), []c03Op{{13}, {12}, {13}}), // the emptied argument of a Meld
+			cat(pushes(10), []c03Op{{11}, {2}, {15}}),                    // the receiver kept by a Merge (1 element)
+		}
+		convs := [][]c03Op{{{5, s.conv}}, {{5, s.conv}, {5, s.c0}, {5, s.conv}}, {{5, s.c0}}}
+		tails := [][]c03Op{
+			{},
+			{{3}},
+			{{11}, {3}},
+			{{13}, {1, 10}, {1, 0}, {1, 21}, {13}, {12}, {3}},
+		}
+		for _, pre := range small {
+			for _, cv := range convs {
+				for n := 2; n <= 3; n++ {
+					seqsExact(len(vals), n, func(seq []int) {
+						var ps []c03Op
+						for _, k := range seq {
+							ps = append(ps, c03Op{1, vals[k]})
+						}
+						for _, tl := range tails {
+							g.Count("convert-on-size-0/1-then-pushes")
+							c03Emit(g, "exhaustive", c03Hist(s.ty, s.c0, s.c1, cat(pre, cv, ps, tl)))
+						}
+					})
+				}
+			}
+		}
+	}
 	g.Exhaustive("exhaustive")
 
-	// 5. seeded random histories of length 200 over 0..50, Convert in the mix
+	// 6. seeded random histories of length 200 over 0..50, Convert in the mix
 	nr := g.Pick(300, 3000)
 	for k := 0; k < nr; k++ {
 		ty := g.Rng.Intn(2)
@@ -633,9 +799,12 @@ func genC03(g *Gen) {
 				ops = append(ops, c03Op{12})
 				sz0 += sz1
 				sz1 = 0
-			case x < 84:
+			case x < 83:
 				ops = append(ops, c03Op{13})
 				sz0, sz1 = sz1, sz0
+				held = nil
+			case x < 84:
+				ops = append(ops, c03Op{15}) // bring the receiver of the last Merge/Meld back
 				held = nil
 			case x < 85:
 				ops = append(ops, c03Op{4})
@@ -673,7 +842,11 @@ func genC03(g *Gen) {
 		}
 	}
 
-	// 6. degenerate / boundary inputs
+	// 7. LARGE: heaps of 40, 130, 300, 1030 (thorough: + 3000, 10000) elements — sift paths of
+	//    depth 6-10 (14), every capacity growth of append and any shrink threshold are crossed.
+	genC03Large(g)
+
+	// 8. degenerate / boundary inputs
 	for _, s := range setups {
 		for _, ops := range [][]c03Op{
 			{},
@@ -699,13 +872,201 @@ func genC03(g *Gen) {
 	}
 }
 
+// genC03Large emits the "large" stream.  Values come from g.Rng (wide range, a
+// narrow range with many ties) or are ascending / descending / all tied; every
+// history ends in the full drain of all heaps, so a heap of n elements costs n
+// Pops with sift-down paths of depth log2(n).
+//
+// The Gallina list model costs O(n) per array access with unary indices (a drain
+// of 1000 elements takes it ~20 s), so only the cases up to modelMax elements are
+// sent in modes 0/1 (model + specification); the larger ones go in the spec-only
+// modes 2/3.  Histories with Deletes always go in mode 0 (the known finding can only
+// be attributed there) and are kept at sizes the model can afford.
+func genC03Large(g *Gen) {
+	type cfg struct{ ty, c0, c1 int }
+	cfgs := []cfg{{0, 0, 1}, {0, 1, 0}, {1, 2, 3}, {1, 3, 2}}
+	modelMax := g.Pick(130, 300)     // heaps up to this size are also run on the model
+	sortModelMax := g.Pick(257, 600) // the same for Sort
+	mkVals := func(n, kind int) []int {
+		v := make([]int, n)
+		for i := range v {
+			switch kind {
+			case 0: // wide
+				v[i] = g.Rng.Intn(1000000)
+			case 1: // many ties (and ties by key: 10 keys x 10 payloads)
+				v[i] = g.Rng.Intn(100)
+			case 2: // ascending
+				v[i] = 3 * i
+			case 3: // descending
+				v[i] = 3 * (n - i)
+			default: // all equal by key, payloads cycling
+				v[i] = 500 + i%10
+			}
+		}
+		return v
+	}
+	pushEach := func(vs []int) []c03Op {
+		o := make([]c03Op, len(vs))
+		for i, v := range vs {
+			o[i] = c03Op{1, v}
+		}
+		return o
+	}
+	pushBatch := func(vs []int) c03Op { return append(c03Op{14, len(vs)}, vs...) }
+	pops := func(k int) []c03Op {
+		o := make([]c03Op, k)
+		for i := range o {
+			o[i] = c03Op{2}
+		}
+		return o
+	}
+	// emit: size = the largest heap of the history (decides the mode)
+	emit := func(c cfg, size int, key string, parts ...[]c03Op) {
+		var ops []c03Op
+		for _, p := range parts {
+			ops = append(ops, p...)
+		}
+		g.Count("large:" + key)
+		in := c03Hist(c.ty, c.c0, c.c1, ops)
+		if size > modelMax {
+			in[0] = 2
+		}
+		c03Emit(g, "large", in)
+	}
+	sizes := []int{40, 130, 300, 1030}
+	if !g.Quick() {
+		sizes = append(sizes, 3000)
+	}
+	k := 0
+	pick := func() cfg { k++; return cfgs[k%len(cfgs)] }
+	for _, n := range sizes {
+		kinds := []int{0, 1, 2, 3}
+		if n >= 1000 {
+			kinds = []int{0, 1} // the big ones: random wide and random with ties
+		}
+		for _, kind := range kinds {
+			reps := 1
+			if n <= 130 {
+				reps = 2
+			}
+			for r := 0; r < reps; r++ {
+				c := pick()
+				vs := mkVals(n, kind)
+				// built by single Pushes, by FromSlice, by one batch Push; drained completely
+				emit(c, n, "push-each+drain", pushEach(vs))
+				emit(c, n, "fromslice+drain", []c03Op{c03FromSliceOp(c.c0, vs)})
+				emit(c, n, "push-batch+drain", []c03Op{pushBatch(vs)})
+				// Convert of a large heap, then drain
+				emit(c, n, "convert+drain", []c03Op{c03FromSliceOp(c.c0, vs), {5, c.c0 ^ 1}})
+				// Merge / Meld of two large heaps (one pushed, one from a slice); then the result,
+				// the receiver and the argument are used again; all three drained
+				ws := mkVals(n/2+1, kind)
+				for _, code := range []int{11, 12} {
+					emit(c, n+1, "merge/meld-two-large", []c03Op{{13}, c03FromSliceOp(c.c1, ws), {13}}, pushEach(vs[:n/2]),
+						[]c03Op{{code}, {3}, {1, 7}, {15}, {1, 8}, {15}, {13}, {1, 9}, {13}})
+				}
+				// saw-tooth: grow to n, then 4 rounds of (push n/4, pop n/4) so that n elements pass
+				// through while ~n are held; fall to n/8 (any shrink threshold), grow back, drain
+				q := n / 4
+				var saw []c03Op
+				saw = append(saw, pushEach(vs)...)
+				for round := 0; round < 4; round++ {
+					saw = append(saw, pushEach(mkVals(q, kind%2))...)
+					saw = append(saw, pops(q)...)
+				}
+				saw = append(saw, pops(n-n/8)...)
+				saw = append(saw, c03Op{3}, c03Op{7})
+				saw = append(saw, pushEach(mkVals(n/2, kind%2))...)
+				emit(c, n+q, "saw-tooth", saw)
+			}
+		}
+	}
+	// Delete in a large heap: inner victims (defect #20 may strike: the known-finding matcher must
+	// attribute exactly those cases), the root, the last slot, absent values; Pops in between.
+	// Always mode 0 (model + matcher), hence at sizes the model can afford.
+	delSizes := []int{40, 130, 300}
+	if !g.Quick() {
+		delSizes = append(delSizes, 1030)
+	}
+	for _, n := range delSizes {
+		for r := 0; r < 2; r++ {
+			c := pick()
+			vs := mkVals(n, r) // r=0 wide (mostly distinct), r=1 ties
+			ops := []c03Op{c03FromSliceOp(c.c0, vs)}
+			for d := 0; d < 12; d++ {
+				ops = append(ops, c03Op{6, vs[g.Rng.Intn(len(vs))]})
+				if d%3 == 2 {
+					ops = append(ops, c03Op{2}, c03Op{3})
+				}
+			}
+			ops = append(ops, c03Op{6, -5})
+			g.Count("large:deletes-in-large-heap")
+			c03Emit(g, "large", c03Hist(c.ty, c.c0, c.c1, ops))
+			// absent values only: nothing may be attributed, the property must simply hold
+			emit(c, n, "delete-absent-in-large-heap", []c03Op{c03FromSliceOp(c.c0, vs), {6, -5}, {6, -6}, {2}, {6, -7}})
+		}
+	}
+	// batch Push(v1..vk) onto a heap that already holds sz elements (built by pushes or FromSlice)
+	for _, sz := range []int{0, 1, 8, 50, 300} {
+		for _, kk := range []int{2, 9, 17, 33, 100} {
+			for kind := 0; kind < 2; kind++ {
+				c := pick()
+				base := mkVals(sz, kind)
+				batch := mkVals(kk, kind)
+				emit(c, sz+kk, "batch-push-onto-heap", pushEach(base), []c03Op{pushBatch(batch), {3}})
+				emit(c, sz+2*kk, "batch-push-onto-heap", []c03Op{c03FromSliceOp(c.c0, base), pushBatch(batch), {3}, pushBatch(mkVals(kk, kind)), {2}})
+				// the same sizes through Merge and Meld: receiver of size sz, argument of size kk
+				for _, code := range []int{11, 12} {
+					emit(c, sz+kk, "merge/meld-sizes", []c03Op{{13}, pushBatch(batch), {13}, c03FromSliceOp(c.c0, base), {code}, {3}})
+				}
+			}
+		}
+	}
+	if !g.Quick() {
+		// ~10^4: one push-built and one FromSlice-built heap each, drained
+		for kind := 0; kind < 2; kind++ {
+			vs := mkVals(10000, kind)
+			emit(cfgs[kind], 10000, "push-each+drain", pushEach(vs))
+			emit(cfgs[kind+2], 10000, "fromslice+drain", []c03Op{c03FromSliceOp(cfgs[kind+2].c0, vs)})
+		}
+	}
+	// Sort of 100..2000 (thorough: 10000) elements: random, many ties, sorted, reversed, all tied
+	ssz := []int{100, 257, 600, 2000}
+	if !g.Quick() {
+		ssz = append(ssz, 5000, 10000)
+	}
+	for _, n := range ssz {
+		for kind := 0; kind < 5; kind++ {
+			for c := 0; c < 4; c++ {
+				if n >= 5000 && (kind+c)%4 != 0 {
+					continue
+				}
+				mode := 1
+				if n > sortModelMax {
+					mode = 3
+				} else if n > 100 && (kind+c)%2 == 1 {
+					continue // the model is slow: half of the combinations above 100 elements
+				}
+				w := &W{}
+				w.Int(mode).Int(c / 2).Int(c).Ints(mkVals(n, kind))
+				g.Count("large:sort")
+				c03Emit(g, "large", w.Out())
+			}
+		}
+	}
+}
+
 func init() {
 	register(&Prop{ID: "C03", Exec: execC03, Gen: genC03, Describe: describeC03,
-		Rule: "corpus first; exhaustive: every operation sequence from two empty heaps over values {0,1,2,2'} (coded 0,10,20,21; 20/21 tie by key) — " +
-			"16-op alphabet (Push x4, Pop, Peek, Clear, Convert, Delete x4, GetValues, Merge, Meld, Swap) up to length 3 (thorough 4), 10-op alphabet at the next length, 7-op alphabet at the one after (thorough: 6-op at length 7) — " +
+		Rule: "three heap variables: h0 (operated on), h1 (argument of Merge/Meld), h2 (the receiver of the last Merge/Meld, kept alive). " +
+			"corpus first; exhaustive: every operation sequence from empty heaps over values {0,1,2,2'} (coded 0,10,20,21; 20/21 tie by key) — " +
+			"17-op alphabet (Push x4, Pop, Peek, Clear, Convert, Delete x4, GetValues, Merge, Meld, Swap, Swap2) up to length 3 (thorough 4), 10-op alphabet at the next length, 7-op alphabet at the one after (thorough: 6-op at length 7) — " +
 			"for Heap[int] with < and >, and Heap[struct] ordered by key; the same from three pre-built depth-3 heaps; every slice up to length 6 (8) over the 4 values through FromSlice (+ one Delete/Convert) and Sort under all four comparators; " +
-			"Merge/Meld of every pair of heaps built from slices up to length 2 (3); then seeded random histories of 200 operations over 0..50 (all 14 operations, Convert/FromSlice/Merge/Meld in the mix) and random Sort/FromSlice inputs up to length 60; " +
+			"Merge/Meld of a receiver prepared in 13 ways (with and without spare capacity: after Push growth, Pop, Clear, Delete, FromSlice, Convert; order broken by the pinned Delete) with every argument built from a slice up to length 2 (3) by FromSlice or by pushes, followed by 13 continuations that push/pop on the result, the receiver and the argument; " +
+			"Merge/Meld of every pair of FromSlice heaps up to length 2 (3); Convert (once, thrice, to the same comparator) on 16 kinds of heaps of 0 or 1 elements followed by every sequence of 2 and 3 pushes and Peek/Merge/Meld; " +
+			"then seeded random histories of 200 operations over 0..50 (all 15 operations) and random Sort/FromSlice inputs up to length 60; " +
+			"a LARGE stream: heaps of 40, 130, 300, 1030 (thorough 3000, 10000) elements built by Push, one batch Push, FromSlice, Convert, Merge and Meld of two large heaps, saw-tooth histories, batch Push of 2..100 values onto heaps of 0..300, Deletes in heaps of 40..300 (1030), all drained completely, and Sort of 100..2000 (10000) elements (random, many ties, sorted, reversed, all tied) — the cases above 130 (300) heap elements / 257 (600) sort elements are judged against the specification only (modes 2/3), the others also against the model; " +
 			"plus degenerate inputs (operations on empty and melded-away heaps, absent and repeated Deletes, negative and huge values). " +
-			"Observed: every return value, Size after every operation, GetValues as a sorted multiset, and a final drain of both heaps by Pop. " +
+			"Observed: every return value, Size after every operation, GetValues as a sorted multiset, the contents of both inputs right after Merge/Meld, and a final drain of all three heaps by Pop. " +
 			"A case counts as non-trivial when a heap (or the slice to sort) held at least 3 elements, i.e. a sift had two children to choose from."})
 }
